@@ -311,9 +311,11 @@ func (s *Scope) findDeclared(name []byte, skipForDeclared bool) *Var {
 
 // findUndeclared finds an undeclared variable in the current and contained scopes.
 func (s *Scope) findUndeclared(name []byte) *Var {
-	for _, v := range s.Undeclared {
+	for i, v := range s.Undeclared {
 		// no need to evaluate v.Link as v.Data stays the same and Link is nil in the active scope
-		if 0 < v.Uses && bytes.Equal(name, v.Data) {
+		// skip the uses made in the function arguments or in the for initializer, as in `function f(a=b){b;var b}`
+		// where the first b is different from the other two
+		if 0 < v.Uses && bytes.Equal(name, v.Data) && (int(s.NumArgUses) <= i || v.Decl != NoDecl) {
 			return v
 		}
 	}
